@@ -92,7 +92,7 @@ int main(void)
 			bitint383_t cand[3U];
 			memset(cand, 0, sizeof(cand));
 			r383(cand, cs);
-			shift(cand, a, (echs_shift_t)sh);
+			shift(cand, SCALE_GREGORIAN, a, (echs_shift_t)sh);
 			p383(&cand[0]); putchar('|'); p383(&cand[1]); putchar('|'); p383(&cand[2]); putchar('\n');
 		} else if (!strcmp(line, "y.eastr")) {
 			char *f[5]; char *ys = arg; char *rest = strchr(arg, ' ');
